@@ -10,6 +10,7 @@ package evalfilter
 import (
 	"math"
 	"regexp"
+	"strconv"
 	"strings"
 
 	"github.com/skx/evalfilter/v2/object"
@@ -22,6 +23,8 @@ func init() {
 	zzsv.Register("ZZ_C01_Nested", ZZ_C01_Nested)
 	zzsv.Register("ZZ_C01_LiteralPool", ZZ_C01_LiteralPool)
 	zzsv.Register("ZZ_C01_LiteralOperands", ZZ_C01_LiteralOperands)
+	zzsv.Register("ZZ_C01_MixedOperands", ZZ_C01_MixedOperands)
+	zzsv.Register("ZZ_C01_Index", ZZ_C01_Index)
 }
 
 var zzBinOps = []string{"+", "-", "*", "/", "%", "**", "<", "<=", ">", ">=", "==", "!=", "~=", "!~", "in", ".."}
@@ -509,4 +512,252 @@ func ZZ_C01_LiteralOperands(sv *zzsv.T) {
 	default:
 		sv.Reach("C01.litops.unspec")
 	}
+}
+
+// zzMixOperand makes one operand of `X OP Y` with a chosen provenance: a literal
+// written in the script (integers symbolic at AST level through the
+// placeholder 7001+k; floats, strings, booleans, arrays, regexps with a few
+// concrete spellings), a script variable, or a field of the host object.
+// It returns the expression text and the value.
+func zzMixOperand(sv *zzsv.T, vars map[string]zv, name string, concreteInt int, t int, prov int, lits *[]int64, fields map[string]interface{}) (string, zv, bool) {
+	switch prov {
+	case 0: // literal
+		switch t {
+		case tInt:
+			var l int64
+			if concreteInt > 0 {
+				// next to a float operand the literal takes representative
+				// values: the machine writes small literals into a 16-bit
+				// operand and reads them back, and the solvers cannot see
+				// through that inside a floating-point term
+				l = []int64{0, 1, 70000, 3, 65534, 65535}[sv.Choice(name+".ilit", concreteInt)]
+			} else {
+				l = sv.Int64(name)
+				sv.Assume(l >= 0)
+				sv.Assume(l <= 70000)
+			}
+			*lits = append(*lits, l)
+			return strconv.FormatInt(int64(7000+len(*lits)), 10), zInt(l), true
+		case tFloat:
+			sp := []string{"0.0", "1.0", "2.5", "70000.0"}
+			fv := []float64{0, 1, 2.5, 70000}
+			c := sv.Choice(name+".flit", len(sp))
+			return sp[c], zFloat(fv[c]), true
+		case tString:
+			sp := []string{"", "a", "1", "ab"}
+			c := sv.Choice(name+".slit", len(sp))
+			return "\"" + sp[c] + "\"", zStr(sp[c]), true
+		case tBool:
+			if sv.Choice(name+".blit", 2) == 1 {
+				return "true", zBool(true), true
+			}
+			return "false", zBool(false), true
+		case tArray:
+			if sv.Choice(name+".alit", 2) == 1 {
+				return "[1, 2]", zArr(zInt(1), zInt(2)), true
+			}
+			return "[]", zArr(), true
+		case tRegexp:
+			return "/a/", zv{t: tRegexp, s: "a"}, true
+		}
+		return "", zv{}, false
+	case 1: // variable
+		v := zzValue(sv, name, t, 1)
+		vars[name] = v
+		return name, v, true
+	default: // field of the host object (a string-keyed map)
+		var v zv
+		fname := "F" + name
+		switch t {
+		case tInt:
+			v = zInt(sv.Int64(name))
+			fields[fname] = v.i
+		case tFloat:
+			v = zFloat(sv.Float64(name))
+			fields[fname] = v.f
+		case tString:
+			v = zStr(zzASCII(sv, name, sv.Choice(name+".len", 2)))
+			fields[fname] = v.s
+		case tBool:
+			v = zBool(sv.Bool(name))
+			fields[fname] = v.b
+		default:
+			return "", zv{}, false
+		}
+		return fname, v, true
+	}
+}
+
+var zzAllBinOps = []string{"+", "-", "*", "/", "%", "**", "<", "<=", ">", ">=", "==", "!=", "~=", "!~", "in", "..", "&&", "||"}
+
+// ZZ_C01_MixedOperands: `return X OP Y;` where at least one operand is a
+// literal written in the script or a field of the host object (ZZ_C01_Binary
+// has two variables): every operator incl. && and ||, every type a literal or
+// field can have, with and without the optimizer - so that whatever the
+// compiler and optimizer do with constant operands (folding, pooling,
+// rewriting) is held against the operator specification, type and value.
+func ZZ_C01_MixedOperands(sv *zzsv.T) {
+	op := zzAllBinOps[sv.Choice("op", len(zzAllBinOps))]
+	// quick: literal and field operands; thorough adds a variable on one side
+	provs := [][2]int{{0, 0}, {0, 2}, {2, 0}, {2, 2}, {0, 1}, {1, 0}, {2, 1}, {1, 2}}
+	pp := provs[sv.Choice("provenances", sv.Param("mixed.provs", 4, 8))]
+	lp, rp := pp[0], pp[1]
+	litTypes := []int{tInt, tFloat, tString, tBool, tArray, tRegexp}
+	fldTypes := []int{tInt, tFloat, tString, tBool}
+	pick := func(name string, prov int) int {
+		switch prov {
+		case 0:
+			return litTypes[sv.Choice(name, len(litTypes))]
+		case 2:
+			return fldTypes[sv.Choice(name, len(fldTypes))]
+		}
+		return sv.Choice(name, nTypes)
+	}
+	lt := pick("ltype", lp)
+	rt := pick("rtype", rp)
+	e := New("")
+	var lits []int64
+	fields := map[string]interface{}{}
+	vars := map[string]zv{}
+	xs, x, ok1 := zzMixOperand(sv, vars, "a", zzIf(rt == tFloat, 6, 0), lt, lp, &lits, fields)
+	sv.Assume(ok1)
+	ys, y, ok2 := zzMixOperand(sv, vars, "b", zzIf(lt == tFloat, 6, 0), rt, rp, &lits, fields)
+	sv.Assume(ok2)
+	for _, n := range []string{"a", "b"} {
+		if v, ok := vars[n]; ok {
+			e.SetVariable(n, v.obj())
+		}
+	}
+	if op == ".." && lt == tInt && rt == tInt {
+		sv.Assume(y.i-x.i < 4 || y.i < x.i)
+		sv.Assume(x.i > -1000000 && x.i < 1000000 && y.i > -1000000 && y.i < 1000000)
+	}
+	if op == "**" && lt == tInt && rt == tInt {
+		// an integer power is computed through the C library's pow: concrete
+		// small exponents (a symbolic one is an uninterpreted function)
+		sv.Assume(y.i == 0 || y.i == 1 || y.i == 2 || y.i == 3)
+		sv.Assume(x.i >= -300 && x.i <= 300)
+	}
+	if (op == "*") && lt == tInt && rt == tInt {
+		// symbolic x symbolic 64-bit products are beyond the solvers
+		sv.Assume(y.i == 0 || y.i == 1 || y.i == 3 || y.i == 256 || y.i == 65535)
+	}
+	if (op == "/" || op == "%") && lt == tInt && rt == tInt {
+		sv.Assume(y.i == 0 || y.i == 1 || y.i == 3 || y.i == 256 || y.i == 65535)
+	}
+	src := "return " + xs + " " + op + " " + ys + ";"
+	e.Script = src
+	sv.Note("script", src+"   (7001.. are symbolic literals)")
+	sv.Note("types", zzTypeNames[lt]+" "+op+" "+zzTypeNames[rt])
+	prog, ok := zzParseWithLits(sv, src, lits)
+	sv.Assume(ok)
+	var perr error
+	okPrep := zzNoPanic(func() { perr = zzPrepareAST(e, prog, sv.Choice("noopt", 2) == 0) })
+	sv.Assert("C01.mixed.prepare.nopanic", okPrep)
+	if !okPrep {
+		return
+	}
+	var obj interface{}
+	if len(fields) > 0 {
+		obj = fields
+	}
+	var kind int
+	var want zv
+	switch op {
+	case "&&":
+		kind, want = kValue, zBool(zzTruth(x) && zzTruth(y))
+	case "||":
+		kind, want = kValue, zBool(zzTruth(x) || zzTruth(y))
+	default:
+		kind, want = zzSpecBinary(sv, op, x, y)
+	}
+	if perr != nil {
+		// a constant expression may be rejected when the script is prepared
+		// only where running it would have been an error
+		sv.Assert("C01.mixed.prepare.error_only_for_error", kind != kValue)
+		return
+	}
+	var out object.Object
+	var err error
+	okRun := zzNoPanic(func() { out, err = e.Execute(obj) })
+	sv.Assert("C01.mixed.nopanic", okRun)
+	if !okRun {
+		return
+	}
+	zzDescribe(sv, "result", out, err)
+	switch kind {
+	case kValue:
+		sv.Assert("C01.mixed.value", err == nil && zzSame(sv, out, want))
+	case kError:
+		sv.Assert("C01.mixed.error", err != nil)
+	default:
+		sv.Reach("C01.mixed.unspec")
+	}
+}
+
+// ZZ_C01_Index: the index operator on a string that reaches it as a
+// variable, as a field of the host object or as the result of a host
+// function, alone and inside a larger expression: characters, not bytes;
+// null outside the string.
+func ZZ_C01_Index(sv *zzsv.T) {
+	n := sv.Choice("nchars", sv.Param("index.maxchars", 3, 4)+1)
+	s, chars := zzChars(sv, "s", n)
+	i := sv.Int64("i")
+	e := New("")
+	obj, expr, ok := zzProvide(sv, e, "s", zStr(s), sv.Choice("provenance", 3))
+	sv.Assume(ok)
+	form := sv.Choice("form", 3)
+	switch form {
+	case 0:
+		e.Script = "return " + expr + "[i];"
+	case 1:
+		e.Script = "return " + expr + "[i] == " + expr + "[i];"
+	default:
+		e.Script = "return \"<\" + " + expr + "[i + 1 - 1];"
+	}
+	sv.Note("script", e.Script)
+	e.SetVariable("i", &object.Integer{Value: i})
+	sv.Assume(e.Prepare() == nil)
+	out, err := e.Execute(obj)
+	zzDescribe(sv, "result", out, err)
+	in := i >= 0 && i < int64(n)
+	switch form {
+	case 0:
+		sv.Assert("C01.index.noerror", err == nil)
+		if err != nil {
+			return
+		}
+		if in {
+			for k := 0; k < n; k++ {
+				if i == int64(k) {
+					sv.Assert("C01.index.char", zzSame(sv, out, zStr(chars[k])))
+				}
+			}
+		} else {
+			sv.Assert("C01.index.null", zzSame(sv, out, zNull()))
+		}
+	case 1:
+		if in {
+			sv.Assert("C01.index.eq", err == nil && zzSame(sv, out, zBool(true)))
+		} else {
+			sv.Reach("C01.index.unspec") // null == null
+		}
+	default:
+		if in {
+			for k := 0; k < n; k++ {
+				if i == int64(k) {
+					sv.Assert("C01.index.concat", err == nil && zzSame(sv, out, zStr("<"+chars[k])))
+				}
+			}
+		} else {
+			sv.Assert("C01.index.concat.error", err != nil) // string + null
+		}
+	}
+}
+
+func zzIf(c bool, a, b int) int {
+	if c {
+		return a
+	}
+	return b
 }
